@@ -60,6 +60,12 @@ def mk_route(case):
     """How the matrix of this case is obtained - a pure function of the case, so that replays are exact."""
     if os.environ.get("SKC_MK_ROUTES", "1") == "0" or case.get("route") == "direct":
         return "direct"
+    if case.get("route") in ROUTES:
+        r = case["route"]
+        strs = all(isinstance(x, str) for x in list(case.get("alternatives") or [1]) + list(case.get("criteria") or [1]))
+        if (r in ("slice", "iloc") and (not strs or case.get("dtypes"))) or case.get("weights") is None:
+            return "direct"
+        return r
     if not case.get("alternatives") or not case.get("criteria") or case.get("weights") is None:
         return "direct"
     key = json.dumps([case["matrix"], [str(o) for o in case["objectives"]], list(case["weights"]),
